@@ -1,7 +1,9 @@
 (** C09 - executable model of linfa-clustering k-means (algorithm.rs: closest_centroid,
     update_memberships_and_dists, compute_centroids, the Lloyd loop and the restart loop of
-    `KMeans::fit`, `predict`, `transform`).  Polymorphic in NumOps: run with B64_ops against the
-    Rust f64 implementation bit for bit, reasoned about with R_ops. *)
+    `KMeans::fit`, `predict`, `transform`; init.rs: random_init, weighted_k_means_plusplus on top of
+    rand's WeightedIndex / UniformFloat).  Polymorphic in NumOps: run with B64_ops against the Rust
+    f64 implementation and with the binary32 instance against f32, bit for bit; reasoned about with
+    R_ops. *)
 From Coq Require Import List NArith Bool.
 From LinfaVerif Require Import Common.Num Common.NdSum.
 Import ListNotations.
@@ -120,3 +122,120 @@ Definition transform (m : metric) (cs X : list row) : list F := map (fun x => sn
 Definition cost (m : metric) (cs X : list row) : F := seq_sum o (transform m cs X).
 
 End KM.
+
+(** * Initialisers (init.rs)
+
+    `random_init` selects the rows whose indices `rand::seq::index::sample` returned (the harness
+    replays that call on a clone of the generator).
+
+    `weighted_k_means_plusplus` is modelled down to the raw 64-bit words of the generator: the
+    harness only records `next_u64()` of a clone of the parameter RNG; everything rand 0.8 does with
+    a word is part of the model:
+      WeightedIndex::new      cumulative sums `total += w` in order, Err on a weight that is not
+                              >= 0 and on total == 0 (the caller maps every Err to index 0 with
+                              `unwrap_or(0)` and then draws nothing),
+      UniformFloat::new(0,t)  scale = t - 0, decreased by one ulp while scale * max_rand + 0 >= t,
+      UniformFloat::sample    value0_1 = (word >> (64 - p)) * 2^-p  (p = 52 for f64; for f32 the
+                              generator's next_u32 is the upper half of next_u64 and p = 23),
+                              chosen = value0_1 * scale + 0,
+      WeightedIndex::sample   the first index whose cumulative weight is > chosen (binary search on
+                              the non-decreasing cumulative weights). *)
+Record sample_fmt (F : Type) := mkFmt {
+  sf_mant : N;          (* explicit mantissa bits p of the float type *)
+  sf_pred : F -> F      (* from_bits(to_bits(x) - 1) on positive finite x *)
+}.
+Arguments sf_mant {F}. Arguments sf_pred {F}.
+
+Section Init.
+Context {F : Type} (o : NumOps F) (fmt : sample_fmt F).
+
+Definition random_init (X : list (list F)) (idx : list nat) : list (list F) :=
+  map (fun i => nth i X []) idx.
+
+Definition two_p : N := N.shiftl 1 (sf_mant fmt).
+Definition unit01 (w : N) : F := div o (of_N o (N.shiftr w (64 - sf_mant fmt))) (of_N o two_p).
+Definition max_rand : F := div o (of_N o (two_p - 1)) (of_N o two_p).
+
+Fixpoint uniform_scale (fuel : nat) (high scale : F) : F :=
+  match fuel with
+  | O => scale
+  | S f => if leb o high (add o (mul o scale max_rand) (zero o))
+           then uniform_scale f high (sf_pred fmt scale) else scale
+  end.
+
+(* cumulative weights seen before each item after the first one, and the total *)
+Fixpoint wi_cum (ws : list F) (total : F) : option (list F * F) :=
+  match ws with
+  | [] => Some ([], total)
+  | w :: ws' =>
+      if leb o (zero o) w then
+        match wi_cum ws' (add o total w) with
+        | Some (c, t) => Some (total :: c, t)
+        | None => None
+        end
+      else None
+  end.
+
+Definition wi_new (ws : list F) : option (list F * F) :=
+  match ws with
+  | [] => None
+  | w0 :: ws' =>
+      if leb o (zero o) w0 then
+        match wi_cum ws' w0 with
+        | Some (c, t) => if eqb o t (zero o) then None else Some (c, t)
+        | None => None
+        end
+      else None
+  end.
+
+Fixpoint first_above (cum : list F) (u : F) (i : nat) : nat :=
+  match cum with
+  | [] => i
+  | c :: cum' => if leb o c u then first_above cum' u (S i) else i
+  end.
+
+Definition wi_sample (cum : list F) (total : F) (w : N) : nat :=
+  let scale := uniform_scale 64 total (sub o total (zero o)) in
+  first_above cum (add o (mul o (unit01 w) scale) (zero o)) 0.
+
+(* `WeightedIndex::new(ws).map(|d| d.sample(rng)).unwrap_or(0)`: a generator word is consumed only
+   when the distribution could be built.  (The first draw of k-means++ uses `.expect` instead of
+   `unwrap_or(0)`: it panics where this returns 0 - excluded by weights = ones, n >= 1.) *)
+Definition wi_draw (ws : list F) (words : list N) : nat * list N :=
+  match wi_new ws with
+  | None => (0%nat, words)
+  | Some (cum, total) =>
+      match words with
+      | w :: words' => (wi_sample cum total w, words')
+      | [] => (0%nat, [])
+      end
+  end.
+
+Fixpoint pp_loop (m : metric) (X : list (list F)) (wts : list F) (steps : nat)
+    (cs : list (list F)) (words : list N) : list (list F) * list N :=
+  match steps with
+  | O => (cs, words)
+  | S s =>
+      (* update_min_dists against the centroids chosen so far, then `dists *= weights` *)
+      let dists := map (fun xw => mul o (snd (closest o m cs (fst xw))) (snd xw)) (combine X wts) in
+      let '(i, words') := wi_draw dists words in
+      pp_loop m X wts s (cs ++ [nth i X []]) words'
+  end.
+
+Definition weighted_plusplus (m : metric) (X : list (list F)) (wts : list F) (k : nat) (words : list N)
+  : list (list F) * list N :=
+  let '(i0, words0) := wi_draw wts words in
+  pp_loop m X wts (k - 1) [nth i0 X []] words0.
+
+Definition plusplus (m : metric) (X : list (list F)) (k : nat) (words : list N) :=
+  weighted_plusplus m X (repeat (one o) (length X)) k words.
+
+(* one initialisation per restart, all drawn from one generator stream (the Lloyd loop draws nothing) *)
+Fixpoint plusplus_inits (m : metric) (X : list (list F)) (k runs : nat) (words : list N)
+  : list (list (list F)) :=
+  match runs with
+  | O => []
+  | S r => let '(cs, words') := plusplus m X k words in cs :: plusplus_inits m X k r words'
+  end.
+
+End Init.
